@@ -35,6 +35,11 @@ def run(ctx):
         # disallowed action: any(ALLOWED..) false => invalid
         g_act = CallGuard(r'Iterator::any$', 'false', argpred=lambda f, bi, t: 'ALLOWED_UPDATE_MANIFEST_ACTIONS' in T.call_term(f, bi), name='action in ALLOWED_UPDATE_MANIFEST_ACTIONS = false')
         oblig.failing_edge_obligation(ctx, 'C21-D1', fn, g_act, lambda bi, b, _s=inv: bi in _s, 'manifest.update.invalid Failure log')
+        # the membership test is an equality with the action name (a prefix/substring test would admit e.g. c2pa.edited through c2pa.edited.metadata)
+        mem = [T.call_term(fn, bi) for bi, t in fn.calls() if g_act.matches_call(fn, bi, t)]
+        from terms import canon_lit
+        exact = [m for m in mem if re.fullmatch(r'Iterator::any\[PartialEq::eq\((\w+,Action::action\(\w+\)|Action::action\(\w+\),\w+)\)\]\(ALLOWED_UPDATE_MANIFEST_ACTIONS\)', m)]
+        ctx.ob('C21-D1', VI, 'allowed-action test', 'equality of the list element with action.action()', bool(mem) and len(exact) == len(mem), detail=str(mem)[:200])
         # the actions examined are those of claim.action_assertions() (all actions assertions, created and gathered)
         src_ok = False
         for bi, t in fn.calls():
